@@ -75,6 +75,7 @@ def units(tier):
         chunk = 4 if days == "boundary" else 6
         for i in range(0, len(ys), chunk):
             us.append(("pool", ci, ys[i:i + chunk]))
+    us.append(("cancel", "greg"))
     for kind in A.KINDS:
         for rep in pools.REPS:
             us.append(("dump_forms", kind, rep))
@@ -309,6 +310,30 @@ def run_unit(unit, ctx):
             check_rezone(ctx, kind, c, pdesc, p, inst, hsh, (0, 0), how="to_utc")
             for so in SEAM_OFFSETS[2:4] if ctx.tier == "quick" else SEAM_OFFSETS:
                 check_rezone(ctx, kind, c, pdesc, p, inst, hsh, M.split_offset_minutes(so), how="to_local")
+    elif u == "cancel":
+        # the destination offset takes exactly the decimal part of the local time away (T01,4Z -> -01:24) or fills the
+        # day up: the local time lands a hair below or above a whole unit; fields must stay in range, and 24:00 of the
+        # previous day is not "00:00" of this one
+        kind = unit[1]
+        impl.set_mode(A.MODE_OF[kind])
+        c = M.cal(kind)
+        for cc in range(5, 100, 5):
+            mins = cc * 6 // 10
+            for k in (0, 1, 23):
+                for rep, f in (("cal", [2000, 3, 1]), ("ord", [2000, 61]), ("week", [2000, 9, 3])):
+                    for t in (["hf", k, cc / 100.0], ["hmf", k, mins, 0.25], ["hmf", k, mins, cc / 100.0]):
+                        pdesc = {"rep": rep, "f": f, "t": t, "tz": [0, 0]}
+                        p, inst, hsh = _prep(kind, c, pdesc)
+                        ctx.state_count += 1
+                        for dest in ((-k, -mins), (23 - k, 60 - mins), (-k - 24, -mins)):
+                            if abs(dest[0]) > 99 or (dest[0] > 0 and dest[1] < 0) or (dest[0] < 0 and dest[1] > 0):
+                                continue
+                            check_rezone(ctx, kind, c, pdesc, p, inst, hsh, dest)
+                            rq = impl.alpha_fast(p.to_time_zone(impl.TimeZone(hours=dest[0], minutes=dest[1])), c)
+                            if rq[8] is None and rq[2] == 24:
+                                ctx.violation("fields_valid", {"h24": False, "exact": False, "how": "to_time_zone", "part": "h24"},
+                                              {"kind": "rezone", "mode": kind, "p": pdesc, "dest": list(dest), "how": "to_time_zone"},
+                                              "0 <= h < 24 for an operand that is not written as 24:00", list(rq[1:5]))
     elif u in ("dump_forms", "dump_points", "dump_yearedge"):
         _, kind, rep = unit
         impl.set_mode(A.MODE_OF[kind])
